@@ -140,6 +140,30 @@ class Run:
                 raise CheckerError("zero obligations for %s" % c.func)
         return ex
 
+    def py_contract(self, file, func, build, replay):
+        """Python analogue of the fallback in verify_c: `build()` generates the obligations of one sidecar contract; when the
+        function's current text is outside the modelled subset (CheckerError), the contract's replay harness runs the REAL
+        function against the contract's postcondition: a failing input is a violation of `<file>:<func>:contract:0`, otherwise
+        the error is deferred (exit 3 unless another contract of the property reports a violation)."""
+        n0 = len(self.sink.obls)
+        nf = len(self.functions)
+        try:
+            build()
+            return
+        except CheckerError as e:
+            del self.sink.obls[n0:]
+            del self.functions[nf:]
+            r = replay(None)
+            if not r.get("reproduced"):
+                import types
+                self.__dict__.setdefault("deferred_errors", []).append((types.SimpleNamespace(file=file, func=func, tag=""), e))
+                return
+            ob = self.sink.add("%s:%s" % (file, func), "contract", [], z3.BoolVal(False), meta={
+                "label": "the contract cannot be applied to the current text (%s) and the real function violates its postcondition" % str(e)[:160]})
+            ob.status, ob.solver, ob.detail = "refuted", "real-code execution", str(e)[:300]
+            ob.replay = (lambda r=r: (lambda model: r))()
+            self.functions.append({"file": file, "function": func, "line": 0, "sha1": "", "obligations": 1})
+
     def _shared_replay(self, fn_):
         key = ("shared", getattr(fn_, "__name__", id(fn_)))
         if key not in self._fuzz_cache:
